@@ -568,4 +568,194 @@ Section RoundTrip.
     - intros C. apply andb_true_iff in C. destruct C as [CE CS]. apply negb_true_iff in CE. apply negb_true_iff in CS.
       rewrite CE, CS in RL. cbn [orb] in RL. exact RL.
   Qed.
+
+  (* progress: MarshalJSON returns when every listed field of x can be read (no nil embedded pointer on the way),
+     UnmarshalJSON returns when every assigned field of w can be read *)
+  Lemma marshal_fields_ok : forall x fs,
+    (forall f, In f fs -> exists y, marshal_field pkg v fuel sd jd x f = Ok y) ->
+    exists fy, marshal_fields pkg v fuel sd jd x fs = Ok fy.
+  Proof.
+    intros x fs. induction fs as [|f fs IH]; intros H; [exists []; reflexivity|].
+    destruct (H f (or_introl eq_refl)) as [y Hy]. destruct (IH (fun g Hg => H g (or_intror Hg))) as [ys Hys].
+    exists ((f, y) :: ys). cbn [marshal_fields]. rewrite Hy. cbn [bind]. rewrite Hys. reflexivity.
+  Qed.
+
+  Theorem marshal_runs : forall x,
+    (forall f, In f (jd_list jd) -> exists y, lookup x (jp f) = Ok y) ->
+    exists kv, marshal pkg v fuel sd jd x = Ok kv.
+  Proof.
+    intros x RD. destruct aligned_parts as [AG [AS [AR [DG [DS [IL [ND NDrop]]]]]]].
+    destruct (marshal_fields_ok x (jd_list jd)) as [fy Hfy].
+    { intros f Hf. unfold marshal_field. destruct (mem_str f (jd_getters jd)) eqn:MG.
+      - rewrite getter_is_lookup by (apply mem_str_in; exact MG). apply RD. exact Hf.
+      - destruct (mem_str f (jd_exported jd)) eqn:ME; [|eauto].
+        destruct (AR f Hf) as [_ R]. rewrite R. apply RD. exact Hf. }
+    unfold marshal. rewrite Hfy. cbn [bind]. eauto.
+  Qed.
+
+  Theorem unmarshal_runs : forall kv w,
+    (forall f, In f (jd_setters jd ++ jd_exported jd) -> exists y, lookup w (jp f) = Ok y) ->
+    exists w', unmarshal pkg v fuel sd jd kv w = Ok w'.
+  Proof.
+    intros kv w RD. destruct aligned_parts as [AG [AS [AR [DG [DS [IL [ND NDrop]]]]]]].
+    rewrite unmarshal_run. apply run_ok.
+    - intros p Hp. unfold assignments in Hp. rewrite map_map in Hp. cbn [fst] in Hp. apply in_map_iff in Hp.
+      destruct Hp as [g [Ep Hg]]. subst p. apply RD. exact Hg.
+    - intros p q Hp Hq. unfold assignments in Hp, Hq. rewrite map_map in Hp, Hq. cbn [fst] in Hp, Hq.
+      apply in_map_iff in Hp. apply in_map_iff in Hq. destruct Hp as [g [Ep Hg]]. destruct Hq as [h [Eq Hh]]. subst p q.
+      assert (Lg : In g (jd_list jd)) by (apply IL; apply in_or_app; right; exact Hg).
+      assert (Lh : In h (jd_list jd)) by (apply IL; apply in_or_app; right; exact Hh).
+      destruct (AR g Lg) as [Pg _]. destruct (AR h Lh) as [Ph _].
+      apply (leaf_paths_apart pkg fuel sd G); auto.
+  Qed.
 End RoundTrip.
+
+(* ------------------------------------------- the entries makeJson looks at, declaratively *)
+Lemma map_filter_agree : forall A B (g : A -> B) (p : A -> bool) (q : B -> bool) l,
+  (forall x, In x l -> p x = q (g x)) -> map g (filter p l) = filter q (map g l).
+Proof.
+  intros A B g p q l. induction l as [|x r IH]; intros H; [reflexivity|].
+  cbn [filter map]. rewrite <- (H x (or_introl eq_refl)). destruct (p x); cbn [map]; rewrite IH; auto;
+    intros y Hy; apply H; right; exact Hy.
+Qed.
+
+Lemma decl_leaves_ne_eq : forall pkg fuel fd, (forall n, In n (fd_names fd) -> excluded_decl fd n = false) ->
+  decl_leaves_ne pkg fuel fd = decl_leaves pkg fuel fd.
+Proof.
+  intros pkg fuel fd H. unfold decl_leaves_ne, decl_leaves. destruct (fd_names fd) as [|x ns] eqn:EN; [reflexivity|].
+  rewrite <- EN in *. rewrite EN. rewrite (named_decl_leaves pkg fuel (fd_ty fd) (x :: ns)) || idtac.
+  unfold tfields_of_decl. rewrite EN.
+  rewrite filter_all by (intros n Hn; rewrite H; [reflexivity|rewrite EN; exact Hn]).
+  symmetry. apply (named_decl_leaves pkg fuel (fd_ty fd) (x :: ns)).
+Qed.
+
+(* the unshadowed leaf entries of the flattened list are, in order, the fields Go selects on T by their bare name *)
+Theorem live_entries_are_selectable_leaves : forall pkg fl fuel sd fs hn,
+  flatten pkg fl fuel sd = COk (fs, hn) ->
+  c02_guard pkg fuel sd = true -> no_excluded_fields sd = true ->
+  map f_path (filter oentry fs) = selectable_leaves pkg fuel sd.
+Proof.
+  intros pkg fl fuel sd fs hn H G GE.
+  destruct (c02_guard_parts _ _ _ G) as [GB [GW [GU [GN [_ [_ [GX _]]]]]]].
+  destruct (flatten_is_marked_raw _ _ _ _ _ _ H) as [raw [Hraw [Hfs Hhn]]].
+  assert (L : map f_path (filter is_leaf_entry fs) = leaf_paths pkg fuel (self_inst sd) []).
+  { subst fs. rewrite mark_leaf_paths, top_leaf_paths.
+    rewrite (raw_top_leaves pkg fl fuel (sd_fields sd) raw Hraw) by (intros n; apply (levels_ok_of_guard pkg fuel sd n GN GB)).
+    apply flat_map_ext_in. intros fd Hfd. apply decl_leaves_ne_eq. intros n Hn. eapply no_excluded_names; eauto. }
+  unfold selectable_leaves. rewrite <- L.
+  assert (Split : filter oentry fs = filter (fun e => negb (f_shadowed e)) (filter is_leaf_entry fs)).
+  { clear. induction fs as [|e r IH]; [reflexivity|]. cbn [filter]. unfold oentry at 1, is_leaf_entry at 1.
+    destruct (f_embedded e); cbn [negb andb]; [rewrite andb_false_r; exact IH|].
+    rewrite andb_true_r. cbn [filter]. destruct (negb (f_shadowed e)); rewrite IH; reflexivity. }
+  rewrite Split. apply map_filter_agree. intros e He. apply filter_In in He. destruct He as [He _].
+  pose proof (shadow_refines_selector pkg fl fuel sd fs hn e H GB GW GU GN GX He) as SR.
+  assert (Last : last (f_path e) ""%string = f_name e).
+  { subst fs. destruct (in_mark _ _ He) as [e0 [He0 Ee]]. subst e. rewrite mark_with_path, mark_with_name.
+    destruct (raw_path_last pkg fl fuel sd raw e0 Hraw GB GW GU GN GX He0) as [pre Hp]. rewrite Hp, last_last. reflexivity. }
+  cbn beta. unfold ident, path in *. rewrite Last. destruct (f_shadowed e) eqn:Sh; cbn [negb].
+  - destruct (resolve pkg fuel sd (f_name e)) as [q|] eqn:R; [|reflexivity].
+    destruct (path_eqb (f_path e) q) eqn:E; [|reflexivity]. apply path_eqb_eq in E. subst q.
+    assert (true = false) by (apply SR; reflexivity). discriminate.
+  - rewrite (proj1 SR eq_refl), path_eqb_refl. reflexivity.
+Qed.
+
+(* the exported members, declaratively: the exported fields Go selects on T whose declaration is not tagged json:"-" *)
+Theorem exported_members : forall pkg v fl fuel sd fields d nd jd,
+  json_of pkg v fl fuel sd = COk (fields, d, nd, jd) ->
+  fl_json fl = true -> c02_guard pkg fuel sd = true -> no_excluded_fields sd = true ->
+  no_promoted_json_tags pkg fuel sd = true ->
+  jd_exported jd =
+  map (fun p => last p ""%string)
+      (filter (fun p => is_exported (last p ""%string) && negb (String.eqb (spec_tag pkg fuel sd p) "-"))
+              (selectable_leaves pkg fuel sd)).
+Proof.
+  intros pkg v fl fuel sd fields d nd jd H HJ G GE NP.
+  destruct (c02_guard_parts _ _ _ G) as [GB [GW [GU [GN [_ [_ [GX _]]]]]]].
+  unfold json_of, getset_of in H.
+  destruct (flatten pkg fl fuel sd) as [[fs hn]| |] eqn:EF; try discriminate.
+  inversion H; subst fields d nd jd. clear H.
+  destruct (json_lists fl sd (make_getset pkg v fuel fl sd fs) fs HJ) as [_ [_ [_ [I4 _]]]]. cbn zeta in I4. rewrite I4.
+  rewrite <- (live_entries_are_selectable_leaves pkg fl fuel sd fs hn EF G GE).
+  destruct (flatten_is_marked_raw _ _ _ _ _ _ EF) as [raw [Hraw [Hfs _]]].
+  assert (Facts : forall e, In e fs -> oentry e = true ->
+            last (f_path e) ""%string = f_name e /\ f_jsontag e = spec_tag pkg fuel sd (f_path e)).
+  { intros e He Oe. subst fs. destruct (in_mark _ _ He) as [e0 [He0 Ee]].
+    unfold oentry in Oe. apply andb_true_iff in Oe. destruct Oe as [_ Emb]. apply negb_true_iff in Emb.
+    assert (Emb0 : f_embedded e0 = false) by (rewrite Ee, mark_with_embedded in Emb; exact Emb).
+    pose proof (entry_json_tag pkg fl fuel sd raw e0 Hraw GW NP He0 Emb0) as TG. rewrite HJ in TG.
+    destruct (raw_path_last pkg fl fuel sd raw e0 Hraw GB GW GU GN GX He0) as [pre Hp].
+    subst e. rewrite mark_with_path, mark_with_name, mark_with_jsontag. split; [rewrite Hp, last_last; reflexivity|exact TG]. }
+  assert (Split : filter j_exported fs =
+                  filter (fun e => is_exported (last (f_path e) ""%string) && negb (String.eqb (spec_tag pkg fuel sd (f_path e)) "-"))
+                         (filter oentry fs)).
+  { clear - Facts. induction fs as [|e r IH]; [reflexivity|].
+    assert (IHr : filter j_exported r = filter (fun e0 => is_exported (last (f_path e0) ""%string) &&
+                     negb (String.eqb (spec_tag pkg fuel sd (f_path e0)) "-")) (filter oentry r)).
+    { apply IH. intros e0 H0. apply Facts. right. exact H0. }
+    cbn [filter]. unfold j_exported at 1, j_live, j_exp. destruct (oentry e) eqn:Oe; cbn [andb].
+    - destruct (Facts e (or_introl eq_refl) Oe) as [F1 F2]. cbn [filter]. rewrite F1, <- F2.
+      rewrite andb_comm. destruct (is_exported (f_name e) && negb (String.eqb (f_jsontag e) "-")); rewrite IHr; reflexivity.
+    - exact IHr. }
+  rewrite Split.
+  match goal with |- _ = map ?g2 (filter ?q (map f_path ?l)) =>
+    transitivity (map g2 (map f_path (filter (fun e => q (f_path e)) l)));
+      [|f_equal; apply map_filter_agree; reflexivity] end.
+  cbn beta.
+  rewrite map_map. apply map_ext_in. intros e He. apply filter_In in He. destruct He as [He _].
+  apply filter_In in He. destruct He as [He Oe]. destruct (Facts e He Oe) as [F1 _]. symmetry. exact F1.
+Qed.
+
+(* the part of json_aligned that holds for makeJson's output by construction: the lists are consistent, getter / setter
+   fields are not exported fields, every listed field is a leaf Go selects.  (That the accessor found BY NAME for a
+   promoted field is the accessor OF that field -- the first two conjuncts of json_aligned -- and the distinctness of
+   the listed names are evaluated on every sample of the correspondence run instead.) *)
+Theorem aligned_structure : forall pkg v fl fuel sd fields d nd jd,
+  json_of pkg v fl fuel sd = COk (fields, d, nd, jd) ->
+  fl_json fl = true -> c02_guard pkg fuel sd = true -> no_excluded_fields sd = true ->
+  (forall f, In f (jd_list jd) ->
+     existsb (path_eqb (json_path pkg fuel sd f)) (leaf_paths pkg fuel (self_inst sd) []) = true /\
+     is_some (resolve pkg fuel sd f) = true) /\
+  (forall f, In f (jd_getters jd) -> mem_str f (jd_exported jd) = false) /\
+  (forall f, In f (jd_setters jd) -> mem_str f (jd_exported jd) = false) /\
+  (forall f, In f (jd_getters jd ++ jd_setters jd ++ jd_exported jd) -> mem_str f (jd_list jd) = true).
+Proof.
+  intros pkg v fl fuel sd fields d nd jd H HJ G GE.
+  destruct (c02_guard_parts _ _ _ G) as [GB [GW [GU [GN [_ [_ [GX _]]]]]]].
+  unfold json_of, getset_of in H.
+  destruct (flatten pkg fl fuel sd) as [[fs hn]| |] eqn:EF; try discriminate.
+  inversion H; subst fields d nd jd. clear H.
+  destruct (json_lists fl sd (make_getset pkg v fuel fl sd fs) fs HJ) as [I1 [I2 [I3 [I4 _]]]]. cbn zeta in *.
+  set (GG := fst (type_switch fl sd)) in *. set (SS := snd (type_switch fl sd)) in *.
+  set (ms := gs_methods (make_getset pkg v fuel fl sd fs)) in *.
+  assert (ExpNames : forall f, In f (map f_name (filter j_exported fs)) -> is_exported f = true).
+  { intros f Hf. apply in_map_iff in Hf. destruct Hf as [e [En He]]. apply filter_In in He. destruct He as [_ Pe].
+    unfold j_exported, j_exp in Pe. apply andb_true_iff in Pe. subst f. tauto. }
+  split; [|split; [|split]].
+  - intros f Hf. rewrite I1 in Hf. apply in_map_iff in Hf. destruct Hf as [e [En He]]. apply filter_In in He.
+    destruct He as [He Pe]. unfold j_listed, j_live in Pe. apply andb_true_iff in Pe. destruct Pe as [Pe _].
+    apply andb_true_iff in Pe. destruct Pe as [Oe _].
+    assert (Oe' := Oe). unfold oentry in Oe'. apply andb_true_iff in Oe'. destruct Oe' as [Se _]. apply negb_true_iff in Se.
+    pose proof (proj1 (shadow_refines_selector pkg fl fuel sd fs hn e EF GB GW GU GN GX He) Se) as R.
+    subst f. unfold json_path. rewrite R. split; [|reflexivity].
+    apply existsb_exists. exists (f_path e). split; [|apply path_eqb_refl].
+    assert (In (f_path e) (selectable_leaves pkg fuel sd)).
+    { rewrite <- (live_entries_are_selectable_leaves pkg fl fuel sd fs hn EF G GE). apply in_map. apply filter_In. auto. }
+    unfold selectable_leaves in H. apply filter_In in H. tauto.
+  - intros f Hf. apply not_true_is_false. intros T. apply mem_str_in in T. rewrite I4 in T.
+    rewrite I2 in Hf. apply in_map_iff in Hf. destruct Hf as [e [En He]]. apply filter_In in He. destruct He as [_ Pe].
+    unfold j_getter, j_exp in Pe. apply andb_true_iff in Pe. destruct Pe as [_ Pe]. apply andb_true_iff in Pe.
+    destruct Pe as [Ne _]. apply negb_true_iff in Ne. subst f. rewrite (ExpNames _ T) in Ne. discriminate.
+  - intros f Hf. apply not_true_is_false. intros T. apply mem_str_in in T. rewrite I4 in T.
+    rewrite I3 in Hf. apply in_map_iff in Hf. destruct Hf as [e [En He]]. apply filter_In in He. destruct He as [_ Pe].
+    unfold j_setter, j_exp in Pe. apply andb_true_iff in Pe. destruct Pe as [_ Pe]. apply andb_true_iff in Pe.
+    destruct Pe as [Ne _]. apply negb_true_iff in Ne. subst f. rewrite (ExpNames _ T) in Ne. discriminate.
+  - intros f Hf. apply mem_str_in. rewrite I1. rewrite I2, I3, I4 in Hf.
+    apply in_app_or in Hf. destruct Hf as [Hf|Hf]; [|apply in_app_or in Hf; destruct Hf as [Hf|Hf]];
+      apply in_map_iff in Hf; destruct Hf as [e [En He]]; apply filter_In in He; destruct He as [He Pe];
+      apply in_map_iff; exists e; split; auto; apply filter_In; split; auto.
+    + unfold j_getter in Pe. unfold j_listed. apply andb_true_iff in Pe. destruct Pe as [L Pe]. rewrite L.
+      apply andb_true_iff in Pe. destruct Pe as [_ Pg]. unfold j_get in *. rewrite Pg. cbn. rewrite orb_true_r. reflexivity.
+    + unfold j_setter in Pe. unfold j_listed. apply andb_true_iff in Pe. destruct Pe as [L Pe]. rewrite L.
+      apply andb_true_iff in Pe. destruct Pe as [_ Ps]. unfold j_set in *. rewrite Ps. cbn. rewrite !orb_true_r. reflexivity.
+    + unfold j_exported in Pe. unfold j_listed. apply andb_true_iff in Pe. destruct Pe as [L Pe]. rewrite L, Pe. reflexivity.
+Qed.
